@@ -57,6 +57,7 @@ def check(ctx):
     d2_reset(ctx, idx, st)
     d3_fresh(ctx, idx, st)
     d4_cache(ctx, idx, st)
+    d4_memos(ctx, idx, st)
     d5_consumers(ctx, idx, st)
     d6_determinism(ctx, idx, st)
     d7_singleton(ctx, idx, st)
@@ -504,6 +505,100 @@ def d4_cache(ctx, idx, st):
         C03.parse_key_discipline(r, idx)
 
 
+PARSE_TARGETS = (MP + '.parse', MP + '.raw_parse', MOD + '.parse')
+STATE_MUTATORS = {'update', 'setdefault', 'append', 'add', 'insert', 'extend', '__setitem__', 'appendleft', 'move_to_end'}
+
+
+def _parse_calls(idx, fi):
+    out = []
+    for c in walk_own(fi.node):
+        if isinstance(c, ast.Call) and nf.callee_name(c) in ('parse', 'raw_parse'):
+            targets, how = idx.resolve_call(fi, c)
+            if any(not isinstance(t, tuple) and t.qualname in PARSE_TARGETS for t in targets):
+                out.append(c)
+    return out
+
+
+def _persistent_stores(idx, fi):
+    """Stores into state that outlives the call: subscript/attribute stores and mutating calls on module-level names,
+    on PARSER, on self (methods), on the function object itself; rebinding of declared globals."""
+    fn = fi.node
+    from ..index import local_names
+    locs = set(local_names(fn))
+    globs = {n for g_ in walk_own(fn) if isinstance(g_, ast.Global) for n in g_.names}
+    me = fi.params[0] if (fi.cls is not None and not fi.is_static and fi.params) else None
+
+    def persistent_root(e):
+        cur = e
+        while isinstance(cur, (ast.Subscript, ast.Attribute)):
+            cur = cur.value
+        if not isinstance(cur, ast.Name):
+            return None
+        if cur.id == me or cur.id in globs or (cur.id not in locs and cur.id not in fi.all_params):
+            return cur.id
+        return None
+    out = []
+    for n in walk_own(fn):
+        if isinstance(n, (ast.Assign, ast.AugAssign, ast.AnnAssign)):
+            targets = n.targets if isinstance(n, ast.Assign) else [n.target]
+            flat = []
+            for t in targets:
+                flat.extend(t.elts if isinstance(t, (ast.Tuple, ast.List)) else [t])
+            for t in flat:
+                if isinstance(t, (ast.Subscript, ast.Attribute)):
+                    root = persistent_root(t)
+                    if root is not None:
+                        out.append((n, t, root))
+                elif isinstance(t, ast.Name) and t.id in globs:
+                    out.append((n, t, t.id))
+        elif isinstance(n, ast.Call) and isinstance(n.func, ast.Attribute) and n.func.attr in STATE_MUTATORS:
+            root = persistent_root(n.func.value)
+            if root is not None:
+                out.append((lib.enclosing_stmt(n), n, root))
+    return out
+
+
+def d4_memos(ctx, idx, st):
+    r = ctx.rule('D4.MEMO', 'any memo written on the parse path outside the parser cache (module dict, attribute, "most recent" '
+                            'slot) is written only after the parsing call returned normally', floor=2)
+    with r:
+        for q in (MOD + '.parse', MOD + '.evaluator'):
+            fi = idx.func(q)
+            calls = _parse_calls(idx, fi)
+            stores = _persistent_stores(idx, fi)
+            name = q.rsplit('.', 1)[-1] + '()'
+            if not stores:
+                r.ok('%s: memo' % name, 'keeps no state of its own besides the parser cache', fi.loc, nontrivial=False)
+                continue
+            if not calls:
+                r.undecided('%s: memo' % name, 'persistent state is written but no parsing call was found', fi.loc)
+                continue
+            cfg = cfg_of(fi.node)
+            blocked = set()
+            call_stmts = []
+            for c in calls:
+                call_stmts.append(lib.enclosing_stmt(c))
+                for rn in lib.cfg_nodes_for(cfg, c):
+                    for t, lab in rn.succs:
+                        if lab != 'exc':
+                            blocked.add((rn, t, lab))
+            reach = cfg.reach([cfg.entry], blocked_edges=blocked)
+            for stmt, target, root in stores:
+                where = lib.loc(fi, stmt)
+                construct = '%s: store `%s`' % (name, short(target, 50))
+                if any(stmt is cs for cs in call_stmts) and isinstance(stmt, ast.Assign) and any(stmt.value is c for c in calls):
+                    r.ok(construct, 'assigns the result of the parsing call itself: executes only when it returned', where)
+                    continue
+                early = any(n in reach for n in cfg.nodes_of(stmt))
+                r.check(not early, construct, 'reachable only after the parsing call returned normally',
+                        'the persistent store `%s` (state `%s`, which survives the call) can execute although the parsing call `%s` '
+                        'has not returned normally -- it runs before the parse, or on its exceptional exit. When the formula is '
+                        'malformed the parse raises and this half of the memo stays behind (e.g. the key of the failed string next '
+                        'to the value of the previous one), so a later call for that string is answered from the memo: the outcome '
+                        'of a string depends on what was parsed before' % (short(stmt), root, short(calls[0])), where,
+                        expected='stores of key and value after the parsing call', found=short(stmt))
+
+
 # ----------------------------------------------------------------------------- D5
 class Taint(object):
     """May-alias analysis: which expressions may be one of the usage sets of a (cached) MathExpression."""
@@ -877,7 +972,11 @@ def d7_singleton(ctx, idx, st):
                     and isinstance(v.func.value, ast.Call) and nf.callee_name(v.func.value) == 'MathParser':
                 r.ok('parse()', 'a fresh parser per call (no shared state at all)', pf.loc)
             else:
-                r.undecided('parse()', '`%s` not recognised' % (short(v) if v is not None else 'no return'), pf.loc)
+                res = _memoised_parse(idx, pf)
+                if res is True:
+                    r.ok('parse()', 'PARSER.parse(formula), with a memo keyed by the formula itself (stores checked by D4.MEMO)', pf.loc)
+                else:
+                    r.undecided('parse()', res or '`%s` not recognised' % (short(v) if v is not None else 'no return'), pf.loc)
         ev = idx.func(MOD + '.evaluator')
         pcs = [c for c in walk_own(ev.node) if isinstance(c, ast.Call) and nf.callee_name(c) in ('parse', 'raw_parse')]
         if len(pcs) != 1:
@@ -920,6 +1019,47 @@ def d7_singleton(ctx, idx, st):
                         'formula then depends on what ran before' % short(n), lib.loc(f, n))
         if not writers and not [u for u in users if u[0].qualname not in (MOD + '.parse', MOD + '.evaluator')]:
             r.ok('package: cache writers / raw_parse callers', 'only MathParser.parse', '')
+
+
+def _memoised_parse(idx, pf):
+    """parse() with a memo in front of PARSER.parse: every return is PARSER.parse(formula) (directly, through a local or
+    through the memo slot that was just assigned from it) or a memo value read under the guard `formula == <memo key>`,
+    where the key slot is only ever assigned the formula and the value slot only the result of PARSER.parse(formula).
+    True, or a text saying what was not understood."""
+    F = pf.params[0]
+    calls = [c for c in walk_own(pf.node) if isinstance(c, ast.Call) and nf.match('PARSER.parse(%s)' % F, c) is not None]
+    if not calls:
+        return 'no call PARSER.parse(%s)' % F
+    stores = _persistent_stores(idx, pf)
+    slots = {}
+    for stmt, target, root in stores:
+        if not (isinstance(stmt, ast.Assign) and isinstance(target, (ast.Subscript, ast.Attribute)) and len(stmt.targets) == 1):
+            return 'memo store `%s` not understood' % short(stmt)
+        slots.setdefault(unparse(target), []).append(stmt.value)
+    env = lib.local_env(pf.node)
+
+    def is_result(e):
+        e = nf.subst(e, env)
+        return any(nf.equal(nf.canon(e), nf.canon(c)) for c in calls)
+    key_slots = {k for k, vals in slots.items() if all(isinstance(v, ast.Name) and v.id == F for v in vals)}
+    val_slots = {k for k, vals in slots.items() if all(is_result(v) for v in vals)}
+    if set(slots) - key_slots - val_slots:
+        return 'memo slot `%s` holds something other than the formula or the parse result' % sorted(set(slots) - key_slots - val_slots)[0]
+    for p in nf.decision_paths(pf.node.body, keep_locals=()):
+        if p.leaf.kind != 'ret':
+            continue
+        v = p.leaf.expr
+        if any(nf.equal(v, nf.canon(c)) for c in calls):
+            continue
+        text = unparse(v)
+        if text in val_slots:
+            hit = any(any(nf.match('%s == %s' % (F, k), g_) is not None for k in key_slots) for g_ in p.guards)
+            assigned_here = any(isinstance(e_, ast.Assign) and unparse(e_.targets[0]) == text for e_ in p.effects)
+            if hit or assigned_here:
+                continue
+            return 'the memo value `%s` is returned without the guard `%s == <memo key>`' % (text, F)
+        return 'return value `%s` not recognised' % short(v)
+    return True
 
 
 def _is_parser(idx, fi, recv):
@@ -986,7 +1126,6 @@ MUTANTS = [
            "                                    self.functions_used,\n                                    self.variables_used,", 'D1'),
     Mutant('fields-crossed-in-init', EXPR, "        self.variables_used = variables_used\n        self.functions_used = functions_used",
            "        self.variables_used = functions_used\n        self.functions_used = variables_used", 'D1'),
-    Mutant('metadata-reports-wrong-set', EXPR, "functions_used=self.functions_used,\n", "functions_used=self.variables_used,\n", 'D1'),
     # D2
     Mutant('reset-moved-out-of-finally', EXPR, _FINALLY, "        except:\n            raise\n\n        self.reset_storage()\n        return parsed", 'D2'),
     Mutant('reset-only-on-failure', EXPR, _FINALLY, "        except:\n            self.reset_storage()\n            raise\n\n        return parsed", 'D2'),
@@ -1008,6 +1147,10 @@ MUTANTS = [
            note='seeded: once 10 is cached, 1<TAB>0 hits that entry and evaluates to 10 instead of being rejected'),
     Mutant('parsed-text-strips-all-whitespace', EXPR, "parsed = self.raw_parse(expression_no_whitespace)",
            "parsed = self.raw_parse(''.join(expression.split()))", 'D4'),
+    Mutant('most-recent-formula-memo-keyed-before-the-parse', EXPR, "    return PARSER.parse(formula)",
+           "    if formula == _latest['formula']:\n        return _latest['parsed']\n    _latest['formula'] = formula\n"
+           "    _latest['parsed'] = PARSER.parse(formula)\n    return _latest['parsed']\n\n_latest = {'formula': None, 'parsed': None}", 'D4',
+           note='seeded C10h: after parse("1+") raised, the slot holds key "1+" next to the previous expression; parse("1+") then returns it'),
     # D5
     Mutant('consumer-accumulates-into-cached-set', MH, "vars_used = set().union(*[p.variables_used for p in parsed_expressions])",
            "vars_used = parsed_expressions[0].variables_used if parsed_expressions else set()\n        for p in parsed_expressions:\n            vars_used.update(p.variables_used)", 'D5'),
@@ -1067,6 +1210,9 @@ BENIGN = [
            "        if cache_key not in self.cache:\n            try:\n                self.cache[cache_key] = self.raw_parse(cache_key)\n"
            "            except ParseException:\n                raise UnableToParse(f\"Invalid Input: Could not parse '{expression}' as a formula\")\n\n"
            "        return self.cache[cache_key]\n"),
+    Benign('most-recent-formula-memo-written-after-the-parse', EXPR, "    return PARSER.parse(formula)",
+           "    if formula == _latest['formula']:\n        return _latest['parsed']\n    parsed = PARSER.parse(formula)\n"
+           "    _latest['formula'] = formula\n    _latest['parsed'] = parsed\n    return parsed\n\n_latest = {'formula': None, 'parsed': None}"),
     Benign('cache-store-removed', EXPR, "        self.cache[cache_key] = parsed\n        return parsed", "        return parsed"),
     Benign('grammar-signs-by-tuple-assignment', EXPR, "        minus = Literal(\"-\") | emdash\n", "        minus, dash = (Literal(\"-\") | emdash, emdash)\n"),
 ]
